@@ -201,6 +201,30 @@ def _interp(ctx):
                 sp_f = numpy.abs(numpy.log(f2) - numpy.log(ff)).max()
                 sp_g = numpy.abs(g2 - gg).max()
                 sp_d = numpy.abs(d2 - dd).max()
+                # The interpolant of ln w against ln V cannot depend on the unit of volume: multiplying every sampled volume and every
+                # grid volume by one factor shifts ln V and leaves w, gamma and V dgamma/dV where they are.  The conditioning of the
+                # *problem* is therefore measured on the same data with the volumes divided by their geometric mean (ln V centred at
+                # 0); an algorithm that is only unstable because ln V is 6 or 7 then shows up instead of hiding behind its own noise.
+                gm = float(numpy.exp(numpy.mean(numpy.log(volumes))))
+                rc = _call(ctx, make_input(volumes / gm, table), v / gm, method, order, case_id, cls)
+                rc2 = _call(ctx, make_input(volumes / gm, t2), v / gm, method, order, case_id, cls)
+                if rc is not None and rc2 is not None:
+                    fc, gc, dc = (z[::-1][:, mask] for z in rc)
+                    fc2, gc2, dc2 = (z[::-1][:, mask] for z in rc2)
+                    with numpy.errstate(all="ignore"):
+                        spc = (numpy.abs(numpy.log(fc2) - numpy.log(fc)).max(), numpy.abs(gc2 - gc).max(), numpy.abs(dc2 - dc).max())
+                        unit_dep = (numpy.abs(numpy.log(fc) - numpy.log(ff)).max(), numpy.abs(gc - gg).max(), numpy.abs(dc - dd).max())
+                    if all(numpy.isfinite(x_) for x_ in spc):
+                        sp_f, sp_g, sp_d = min(sp_f, spc[0]), min(sp_g, spc[1]), min(sp_d, spc[2])
+                    tolu = (100 * sp_f + 1e-9, 100 * sp_g + 1e-9, max(100 * sp_d + 1e-8, 100 * sp_g + 1e-9))
+                    ctx.count("volume_unit_invariance_checks")
+                    for e_, tl_, nm_ in zip(unit_dep, tolu, ("frequency", "gamma", "V-dgamma-dV")):
+                        ctx.maxi("volume_unit_dependence/tol", e_ / tl_)
+                        if not (e_ <= tl_):
+                            ctx.violation(f"volume-unit-dependence:{nm_}:{method}",
+                                          f"{cls}: {nm_} changes by {e_:.3g} (tol {tl_:.3g}) when all volumes are divided by their geometric mean "
+                                          f"({gm:.1f}), i.e. expressed in another unit", case_id, data_)
+                            break
                 tol_f, tol_g, tol_d = 100 * sp_f + 1e-9, 100 * sp_g + 1e-9, 100 * sp_d + 1e-8
                 tol_d = max(tol_d, tol_g)
                 # ---- consistency of the triple, window by window (Boole's rule: exact to degree 5) ----
